@@ -23,7 +23,7 @@ REQUIRED_COUNTERS = ["mask_superset_checks", "mask_exact_checks", "payload_varia
 ASSUMPTIONS = ["what is stored under result masks and fill values are not judged", "NaN/inf and zero-length arrays are never generated",
                "cases where the reference is undefined (constant arrays, equal thresholds, zero weight sums) only get check (a) and (c)"]
 
-PAYLOAD_SETS = ((0, 1e30, -1e30), (-9999, 9999, 5e17), (0, -9999, 1e30))
+PAYLOAD_SETS = ((0, 1e30, -1e30), (-9999, 9999, 5e17), (0, -9999, 1e30), (0, "nan", 1e30), ("nan", -9999, "inf"))
 
 
 def cases(ctx):
@@ -33,7 +33,10 @@ def cases(ctx):
     for _ in range(ctx.n(2400, 120000)):
         cmd = cmds[k % len(cmds)] if k < 3 * len(cmds) else rng.choice(cmds)
         k += 1
-        c = cmdgen.gen_case(rng, cmd, dtypes=arr.DTYPES_Q if ctx.quick or rng.random() < 0.6 else arr.DTYPES_T, max_cells=40)
+        dts = arr.DTYPES_Q if ctx.quick or rng.random() < 0.6 else arr.DTYPES_T
+        if rng.random() < 0.1 and cmd not in arr.FUZZY_INPUT:
+            dts = arr.DTYPES_U + ("int64", "float64")       # unsigned fields (NetCDF variables stored unsigned)
+        c = cmdgen.gen_case(rng, cmd, dtypes=dts, max_cells=40)
         # bias towards at least one real mask
         if all(s["mask"] is None or not any(s["mask"]) for s in c["inputs"]) and rng.random() < 0.8:
             s = c["inputs"][rng.randrange(len(c["inputs"]))]
@@ -77,8 +80,13 @@ def gen_csv_case(rng):
     chain = rng.choice([["Copy"], ["Sum"], ["Multiply"], ["Normalize"], ["CvtToFuzzy"], ["CvtToFuzzy", "FuzzyNot"], ["Mean"],
                         ["NormalizeCat"], ["CvtToFuzzyCat"], ["NormalizeCurve"], ["CvtToFuzzy", "FuzzyOr"], ["Maximum"], ["WeightedSum"],
                         ["CvtToFuzzyMeanToMid"], ["NormalizeZScore"], ["CvtToFuzzy", "FuzzyXOr"], ["CvtToFuzzy", "FuzzySelectedUnion"]])
-    return {"kind": "csv", "col": col, "mask": mask, "integer": integer, "chain": chain,
+    case = {"kind": "csv", "col": col, "mask": mask, "integer": integer, "chain": chain,
             "other": [arr.lattice_value(rng, integer=integer) for _ in range(nrows)]}
+    if rng.random() < 0.25:
+        # the file marks missing cells with 0 (declared through MissingVal = 0): no valid cell may then hold 0
+        case["col"] = [v if v != 0 else (3 if integer else 3.5) for v in col]
+        case["markers"] = [0, 77777] if integer or rng.random() < 0.5 else [0.0, -9999]
+    return case
 
 
 def _union_mask(inputs):
@@ -231,10 +239,10 @@ CHAIN_PARAMS = {
 def run_csv(ctx, case):
     """The same table written with two different missing markers (each declared through MissingVal): the arrays read differ
     only in the number hidden under the missing cells, so every downstream result must be identical."""
-    ctx.feature(("csv", tuple(case["chain"]), case["integer"], sum(case["mask"])))
+    ctx.feature(("csv", tuple(case["chain"]), case["integer"], sum(case["mask"]), "zero-marker" if case.get("markers") else "marker"))
     ctx.count("csv_payload_checks")
     digs, outcomes = [], []
-    for marker in (-9999, 77777):
+    for marker in case.get("markers") or (-9999, 77777):
         d = ctx.scratch()
         path = os.path.join(d, "in.csv")
         with open(path, "w") as f:
@@ -263,7 +271,7 @@ def run_csv(ctx, case):
             xin = prog.commands["X"].result
             xm = numpy.ma.getmaskarray(xin)
             if xm.tolist() != case["mask"]:
-                ctx.fail("csv:read-mask-wrong", {"got": xm.tolist(), "want": case["mask"], "marker": marker})
+                ctx.fail("csv:read-mask-wrong%s" % (":marker-zero" if marker == 0 else ""), {"got": xm.tolist(), "want": case["mask"], "marker": marker})
                 return
             rm = numpy.ma.getmaskarray(res)
             if (xm & ~rm).any():
